@@ -41,6 +41,10 @@ type fileConfig struct {
 	mux          sync.RWMutex
 	lastLoadTime time.Time
 
+	// currentVersion is the running release, needed to validate reloaded files
+	// exactly as startup validated them.
+	currentVersion []string
+
 	// reloadMux serialises Reload: reloads are triggered concurrently (timer,
 	// pubsub) and must read, compare and apply one at a time.
 	reloadMux sync.Mutex
@@ -648,6 +652,7 @@ func NewConfig(opts *CmdEnv, currentVersion ...string) (Config, error) {
 	}
 
 	cfg.callbacks = make([]ConfigReloadCallback, 0)
+	cfg.currentVersion = currentVersion
 
 	return cfg, err
 }
@@ -690,18 +695,21 @@ func (f *fileConfig) reloadLocked(opts ...ReloadedConfigDataOption) (*fileConfig
 		opt(newData)
 	}
 
-	// reread the configs
-	cfg, err := newFileConfig(f.opts, newData.configs, newData.rules)
-	if err != nil {
+	// reread the configs, validating them the way startup does: only fatal
+	// errors (cfg == nil) reject the files; a non-nil cfg with err means
+	// warnings only, which startup tolerates
+	cfg, err := newFileConfig(f.opts, newData.configs, newData.rules, f.currentVersion...)
+	if err != nil && cfg == nil {
 		return nil, false, err
 	}
+	warnings := err
 
 	// if nothing's changed, we're fine
 	f.mux.RLock()
 	unchanged := f.mainHash == cfg.mainHash && f.rulesHash == cfg.rulesHash
 	f.mux.RUnlock()
 	if unchanged {
-		return nil, false, nil
+		return nil, false, warnings
 	}
 
 	// otherwise, update our state; the caller runs the callbacks
@@ -712,7 +720,7 @@ func (f *fileConfig) reloadLocked(opts ...ReloadedConfigDataOption) (*fileConfig
 	f.rulesHash = cfg.rulesHash
 	f.mux.Unlock()
 
-	return cfg, true, nil
+	return cfg, true, warnings
 }
 
 // GetHashes returns the current hash values for the main and rules configs.
